@@ -46,6 +46,24 @@ def parseSegs : Nat → List String → List Seg
       ⟨nat! typ, as⟩ :: parseSegs n rest'
     | [] => []
 
+def parseSegsRest : Nat → List String → List Seg × List String
+  | 0, ts => ([], ts)
+  | n + 1, ts =>
+    match ts with
+    | typ :: rest =>
+      let (as, rest') := takeList rest
+      let (more, rest'') := parseSegsRest n rest'
+      (⟨nat! typ, as⟩ :: more, rest'')
+    | [] => ([], [])
+
+def statusOf (n : Nat) : Option Status :=
+  if n = 1 then some .valid else if n = 2 then some .invalid else if n = 3 then some .notFound else none
+
+/-- statements as `cond prep asn rep disp`, five tokens each -/
+def parseStmts : List String → List Stmt
+  | c :: p :: a :: r :: d :: rest => ⟨statusOf (nat! c), nat! p, nat! a, nat! r, nat! d⟩ :: parseStmts rest
+  | _ => []
+
 def showConn : Conn → String
   | .none => "none" | .open => "open" | .closed => "closed"
 
@@ -104,6 +122,15 @@ def step (s : St) (ts : List String) : St × List String :=
     else
       let v := validate s.tbl ⟨nat! fam, nat! len, nat! bits⟩ (nat! las) (parseSegs (nat! nseg) rest)
       (s, [showVal v])
+  | "tchain" :: fam :: len :: bits :: las :: confed :: nseg :: rest =>
+    let (segs, rest') := parseSegsRest (nat! nseg) rest
+    let stmts := parseStmts rest'
+    let r := chainEval s.tbl ⟨nat! fam, nat! len, nat! bits⟩ (nat! las) (b! confed) segs stmts
+    let marks := (r.1.zipIdx.filter (·.1)).map (fun x => toString (x.2 + 1))
+    let path := ";".intercalate (r.2.1.map fun sg => s!"{sg.typ}:" ++ ",".intercalate (sg.as.map toString))
+    -- a rejected route is gone: neither marks nor path can be observed
+    if r.2.2 = 2 then (s, ["marks | path | reject"])
+    else (s, [s!"marks {" ".intercalate marks} | path {path} | accept"])
   | ["before", a, b] => (s, [b2s (before (nat! a) (nat! b))])
   | ["mreset"] => ({ s with mgr := {} }, [])
   | ["mdump"] => (s, [showMgr s.mgr])
